@@ -518,55 +518,72 @@ func (p *Part[C]) RunConcurrent(s *Session, goroutines, perG int) {
 	}
 	gen := rapid.Custom(p.Gen)
 	base := int(rapidSeed(p.Name+"/concurrent") % 1000000007)
-	cases := make([]C, goroutines*perG)
-	ok := s.Guard(func() {
-		for i := range cases {
-			cases[i] = gen.Example(base + i)
+	// the cases are generated in rounds of a bounded size (a case can hold tens of kilobytes; holding all of them at once cost
+	// gigabytes in the thorough tier); goroutine g evaluates cases base + g*perG + i as before
+	const round = 64
+	total := 0
+	for off := 0; off < perG; off += round {
+		n := round
+		if perG-off < n {
+			n = perG - off
 		}
-	})
-	if !ok {
-		return
-	}
-	var wg sync.WaitGroup
-	var mu sync.Mutex
-	var firstErr error
-	var firstCase C
-	start := make(chan struct{})
-	for g := 0; g < goroutines; g++ {
-		wg.Add(1)
-		go func(g int) {
-			defer wg.Done()
-			defer func() {
-				if pv := recover(); pv != nil {
-					s.Abort(fmt.Sprintf("harness panic in concurrent evaluation: %v\n%s", pv, debug.Stack()))
-				}
-			}()
-			<-start
-			for i := 0; i < perG; i++ {
-				mu.Lock()
-				stop := firstErr != nil
-				mu.Unlock()
-				if stop || s.Aborted() {
-					return
-				}
-				c := cases[g*perG+i]
-				if err := p.Eval(c, s.Rec); err != nil {
-					mu.Lock()
-					if firstErr == nil {
-						firstErr, firstCase = err, c
-					}
-					mu.Unlock()
-					return
+		cases := make([]C, goroutines*n)
+		ok := s.Guard(func() {
+			for g := 0; g < goroutines; g++ {
+				for i := 0; i < n; i++ {
+					cases[g*n+i] = gen.Example(base + g*perG + off + i)
 				}
 			}
-		}(g)
+		})
+		if !ok {
+			return
+		}
+		var wg sync.WaitGroup
+		var mu sync.Mutex
+		var firstErr error
+		var firstCase C
+		start := make(chan struct{})
+		for g := 0; g < goroutines; g++ {
+			wg.Add(1)
+			go func(g int) {
+				defer wg.Done()
+				defer func() {
+					if pv := recover(); pv != nil {
+						s.Abort(fmt.Sprintf("harness panic in concurrent evaluation: %v\n%s", pv, debug.Stack()))
+					}
+				}()
+				<-start
+				for i := 0; i < n; i++ {
+					mu.Lock()
+					stop := firstErr != nil
+					mu.Unlock()
+					if stop || s.Aborted() {
+						return
+					}
+					c := cases[g*n+i]
+					if err := p.Eval(c, s.Rec); err != nil {
+						mu.Lock()
+						if firstErr == nil {
+							firstErr, firstCase = err, c
+						}
+						mu.Unlock()
+						return
+					}
+				}
+			}(g)
+		}
+		close(start)
+		wg.Wait()
+		total += len(cases)
+		if firstErr != nil {
+			s.Violation(p.Name, firstCase, fmt.Errorf("while %d goroutines evaluated independent cases concurrently (GOMAXPROCS=%d): %w", goroutines, runtime.GOMAXPROCS(0), firstErr))
+			break
+		}
+		if s.Aborted() {
+			break
+		}
 	}
-	close(start)
-	wg.Wait()
-	if firstErr != nil {
-		s.Violation(p.Name, firstCase, fmt.Errorf("while %d goroutines evaluated independent cases concurrently (GOMAXPROCS=%d): %w", goroutines, runtime.GOMAXPROCS(0), firstErr))
-	}
-	s.Rec.LabelN("concurrent_callers_cases", len(cases))
+	s.Rec.LabelN("concurrent_callers_cases", total)
 }
 
 // testingTB wraps *testing.T so that rapid's own failure report does not fail the
